@@ -18,6 +18,8 @@ NEW_SPECS = (
     ("fmt", (("X", (("fg", 32),)), ("Y", (("bg", 44), ("underline", True))))),
     ("fmt", (("", ()), ("X", (("fg", 32),)), ("", (("bold", True),)))),
     ("fmt", ()),
+    ("str", "\u0301"),
+    ("fmt", (("\u0301", (("fg", 32),)),)),
 )
 
 
@@ -59,6 +61,9 @@ def shard(args):
     news_cells = [C.cells(n) for n in news]
     news_snap = [None if isinstance(n, str) else C.snapshot(n) for n in news]
     universe = [(s_, None) for s_ in C.layouts(k, L)] + [(s_, how) for s_ in C.layouts(2, 2) for how in C.REPEAT_HOWS]
+    # combining and double-width characters, also as runs of their own
+    for text in ("e\u0301", "\u0301e", "Ｅ\u0301a", "a\u0301\u0301", "\u0301"):
+        universe += [(s_, None) for s_ in C.cuts(text, max_runs=3)]
     for i, (spec0, how) in enumerate(universe):
         if i % NSHARDS != idx:
             continue
